@@ -436,7 +436,33 @@ fn c_owner(o: &cw_ownable::Ownership<Addr>, role: &str) -> bool {
 }
 
 impl Monitor for C15 {
-    fn post(&mut self, c: &mut SimCore, step: &Step, _pre: &Obs, out: &TxOut, post: &Obs) -> MResult {
+    fn post(&mut self, c: &mut SimCore, step: &Step, pre: &Obs, out: &TxOut, post: &Obs) -> MResult {
+        // nobody becomes the owner of an existing farm or position: a record that survives a step
+        // under its identifier keeps its owner (a farm that had expired may be closed and its
+        // identifier re-used by a new creation in the same message)
+        if out.ok() {
+            let now = c.w.now();
+            for f0 in pre.farms.iter() {
+                if let Some(f1) = post.farm(&f0.identifier) {
+                    if f1.owner != f0.owner && super::c09::farm_expired(&c.w, f0, now) != Some(true) {
+                        return Err(viol(
+                            "C15.farm_owner_changed",
+                            format!("farm {} of {} belongs to {} after {} by {}", f0.identifier, c.w.a.name(f0.owner.as_str()), c.w.a.name(f1.owner.as_str()), step.op.kind(), step.op.sender().map(|s| c.w.a.name(s)).unwrap_or_default()),
+                        ));
+                    }
+                }
+            }
+            for p0 in pre.positions.iter() {
+                if let Some(p1) = post.position(&p0.identifier) {
+                    if p1.receiver != p0.receiver {
+                        return Err(viol(
+                            "C15.position_owner_changed",
+                            format!("position {} of {} belongs to {} after {}", p0.identifier, c.w.a.name(p0.receiver.as_str()), c.w.a.name(p1.receiver.as_str()), step.op.kind()),
+                        ));
+                    }
+                }
+            }
+        }
         // track former owners
         for ct in [c.w.a.pm.clone(), c.w.a.fm.clone(), c.w.a.em.clone(), c.w.a.fc.clone(), c.w.a.fc2.clone()] {
             if let Some(o) = c.w.ownership(&ct).owner {
